@@ -156,8 +156,8 @@ func runC15(r *Run) {
 	// (2) reply bounds
 	lim := "conv:uint64(downloader.MaxHashFetch)"
 	clampedArg(r, hm, ".GetBlockHashesFromHash", 1, lim, "at most 512 hashes per reply, for every requested amount")
-	r.Branch(hm, "le(downloader.MaxBlockFetch,len(append(loop,list(recv.chainman.GetBlock(new(types.Hash))))))", "the block reply stops growing at MaxBlockFetch (128)")
-	r.OnCondMustNotCall(hm, "le(downloader.MaxBlockFetch,len(append(loop,list(recv.chainman.GetBlock(new(types.Hash))))))", []string{".GetBlock"}, "reaching the limit leaves the gathering loop")
+	r.Branch(hm, "le(downloader.MaxBlockFetch,len(append(iter(nil),list(recv.chainman.GetBlock(new(types.Hash))))))", "the block reply stops growing at MaxBlockFetch (128)")
+	r.OnCondMustNotCall(hm, "le(downloader.MaxBlockFetch,len(append(iter(nil),list(recv.chainman.GetBlock(new(types.Hash))))))", []string{".GetBlock"}, "reaching the limit leaves the gathering loop")
 	// (3) size guard first
 	r.Guards([]row{
 		{F: hm, C: "lt(10485760,$msg.Size)", Pre: []string{".Decode", "github.com/ethereum/go-ethereum/rlp.NewStream"}, Why: "no message above 10 MiB is decoded"},
